@@ -59,7 +59,20 @@ def opC12SvcNames (j : Json) : Except String Json := do
   let names := serviceNames own ms refs
   pure (Json.mkObj [("names", jarr (names.map Json.str)), ("aliased", Json.bool (isAliased (methodCollisions names []) m))])
 
+open Model.Names in
+def opC12Import (j : Json) : Except String Json := do
+  let k ← (← j.getObjVal? "kind").getStr?
+  let m ← (← j.getObjVal? "module").getStr?
+  let a ← (← j.getObjVal? "alias").getStr?
+  let kind ← match k with
+    | "python" => pure ImportKind.python | "own" => pure ImportKind.own
+    | "plus-dep" => pure ImportKind.plusDep | "pb2" => pure ImportKind.pb2
+    | _ => throw s!"kind {k}"
+  let i := pythonImport kind m a
+  pure (Json.mkObj [("bound", Json.str i.bound), ("import_module", Json.str i.module), ("import_alias", Json.str i.alias),
+                    ("reference", Json.str (referenceModule kind m a))])
+
 def opsC12 : List (String × (Json → Except String Json)) :=
-  [("c12.names", opC12Names), ("c12.path", opC12Path), ("c12.file", opC12File), ("c12.snake", opC12Snake), ("c12.camel", opC12Camel), ("c12.alias", opC12Alias), ("c12.svcnames", opC12SvcNames)]
+  [("c12.names", opC12Names), ("c12.path", opC12Path), ("c12.file", opC12File), ("c12.snake", opC12Snake), ("c12.camel", opC12Camel), ("c12.alias", opC12Alias), ("c12.svcnames", opC12SvcNames), ("c12.import", opC12Import)]
 
 end GapicModel.Driver
